@@ -167,7 +167,7 @@ def o2(W, ob):
             if fld in ('pending_checksums', 'local_checksum_history'):
                 mx = W.const('MAX_CHECKSUM_HISTORY_SIZE')
                 ok = bool(lens) and all(a[2] is not None and a[2] <= mx + 1 for a in lens)
-                ob.check(ok and mx == 32, '%s|prune-threshold|%s' % (short(f.path), fld), '%s is pruned once it holds MAX_CHECKSUM_HISTORY_SIZE (32) entries' % fld,
+                ob.check(ok and mx >= 2, '%s|prune-threshold|%s' % (short(f.path), fld), '%s is pruned once it holds MAX_CHECKSUM_HISTORY_SIZE entries' % fld,
                          'prune threshold of %s: %s (MAX_CHECKSUM_HISTORY_SIZE=%s)' % (fld, dnf_str(g)[-120:], mx), where(f, r.line))
     # keyed-by-validated-handle
     a = W.fn(P2P + '::add_local_input')
@@ -198,6 +198,27 @@ def o3(W, ob):
         ok = every_disjunct_has(g, lambda a: a[0] == 'bool' and a[1] == 'is_empty(self.player_reg.remotes)' or (a[0] == 'bool' and 'is_empty(self.player_reg.remotes)' in a[1] and a[2] is False))
         ob.check(ok, 'queue_outgoing_local_input|only-with-remotes', 'local inputs are queued only when there is a remote to send them to',
                  'outgoing_local_inputs grows although there may be no remote: ' + dnf_str(g)[:200], where(q, t.line))
+    # which frame is handed over next is decided by the queue alone: next_complete_outgoing_input_frame reads the queue, the cursor and the local handles, never the
+    # state of an endpoint -- a hand-over that waits for "some remote is running" strands the queue for good when none ever is (stated negatively: endpoint state
+    # must not occur in its conditions; any other respelling of the function is free)
+    nx = W.fn(P2P + '::next_complete_outgoing_input_frame')
+    hosts = [nx]
+    for c in W.closures_of(nx):
+        hosts.append(c)
+        hosts.extend(W.closures_of(c))
+    foreign = []
+    for h in hosts:
+        for t in h.calls():
+            if any(callee_matches(t.callee, UDP + '::' + m) for m in ('is_running', 'is_synchronized', 'is_handling_message')):
+                foreign.append((h, t.line, short(t.callee.best)))
+            for a in t.args:
+                if a.is_place():
+                    aps = W.ctx(h).ap_carry(a.place).s(h, generic=True)
+                    if 'player_reg.remotes' in aps or 'player_reg.spectators' in aps or aps == 'self.state':
+                        foreign.append((h, t.line, aps))
+    ob.check(not foreign, 'next_complete_outgoing_input_frame|queue-only', 'the next frame to hand over is chosen from the queue, the cursor and the local handles alone',
+             'next_complete_outgoing_input_frame consults endpoint / session state (%s): the hand-over of queued local inputs can now wait for a condition that may never '
+             'hold, and the queue grows without bound' % (foreign[0][2] if foreign else ''), where(nx, foreign[0][1] if foreign else None))
     d = W.fn(P2P + '::send_ready_outgoing_inputs_to_remotes')
     Gd = W.guards(d)
     cxd = W.ctx(d)
